@@ -87,6 +87,9 @@ LG = "Obj('sempler.lganm.LGANM', p=Int, W=Arr2, means=Arr1, variances=Arr1)"
                        {'population': False, 'do_interventions': 'none', 'shift_interventions': 'none', 'noise_interventions': 'none', 'random_state': 'none'},
                        # integer-typed model arrays: parameters must be honoured exactly whatever the dtype
                        {'init': 1, 'population': True, 'do_interventions': 'dict', 'shift_interventions': 'dict', 'noise_interventions': 'none', 'random_state': 'none'}],
+          # integer-typed models (init=1) differ only in the float copies taken at the top of the function: four combinations suffice
+          restrict=[{'init': 1}, [{'do_interventions': 'dict', 'shift_interventions': 'dict', 'noise_interventions': 'dict', 'random_state': 'none'},
+                                  {'do_interventions': 'none', 'shift_interventions': 'none', 'noise_interventions': 'none', 'random_state': 'int'}]],
           self_from_init=True, init_case=[{'means': 'arr1', 'variances': 'arr1', 'random_state': 'none'}, {'means': 'arr1i', 'variances': 'arr1i', 'random_state': 'none'}])
 def lganm_sample(self: Obj('sempler.lganm.LGANM', p=Int, W=Arr2, means=Arr1, variances=Arr1), n: Int):
     requires(lganm_ok(self), n >= 0, keys_ok(do_interventions, self.p), keys_ok(shift_interventions, self.p), keys_ok(noise_interventions, self.p))
